@@ -113,6 +113,9 @@ pub fn check(id: &str, tier: Tier) -> i32 {
   };
   let mut items: Vec<(Harness, u8)> = vec![];
   let mut bounds = vec![];
+  if id == "C13" {
+    crate::props_hist::c13_single_threaded(&run, thorough);
+  }
   if id == "C13" || id == "C12" {
     // clone / drop programs: every thread owns an arena value; teardown happens inside the schedule
     use TOp::*;
@@ -122,10 +125,10 @@ pub fn check(id: &str, tier: Tier) -> i32 {
       for shape in [3u8, 0] {
         for i in 0..menu.len() {
           for j in i..menu.len() {
-            items.push((Harness { fl, unify: true, min_seg: 8, cap: 256, shape, progs: vec![menu[i].clone(), menu[j].clone()], own_arenas: true }, b2));
+            items.push((Harness { fl, unify: true, min_seg: 8, cap: 256, shape, progs: vec![menu[i].clone(), menu[j].clone()], own_arenas: true, leave: 0, odd: 0 }, b2));
             if shape == 3 {
               for k in j..menu.len() {
-                items.push((Harness { fl, unify: true, min_seg: 8, cap: 256, shape, progs: vec![menu[i].clone(), menu[j].clone(), menu[k].clone()], own_arenas: true }, b3));
+                items.push((Harness { fl, unify: true, min_seg: 8, cap: 256, shape, progs: vec![menu[i].clone(), menu[j].clone(), menu[k].clone()], own_arenas: true, leave: 0, odd: 0 }, b3));
               }
             }
           }
@@ -167,7 +170,19 @@ pub fn check(id: &str, tier: Tier) -> i32 {
             }
             for tu in tuples(menu, *nt) {
               let progs: Vec<Vec<TOp>> = tu.iter().enumerate().map(|(t, p)| prog(*p, t)).collect();
-              items.push((Harness { fl: *fl, unify: *unify, min_seg: *min_seg, cap: *cap, shape: *shape, progs, own_arenas: false }, *bound));
+              items.push((Harness { fl: *fl, unify: *unify, min_seg: *min_seg, cap: *cap, shape: *shape, progs, own_arenas: false, leave: 0, odd: 0 }, *bound));
+              count += 1;
+            }
+          }
+        }
+      }
+      if *nt == 2 && layouts.contains(&(true, 256, 8)) {
+        // the same programs racing on the bump cursor: fresh space left, cursor at an odd residue
+        for fl in fls {
+          for (leave, odd, shape) in [(48u32, 3u8, 3u8), (32, 0, 1)] {
+            for tu in tuples(menu, 2) {
+              let progs: Vec<Vec<TOp>> = tu.iter().enumerate().map(|(t, p)| prog(*p, t)).collect();
+              items.push((Harness { fl: *fl, unify: true, min_seg: 8, cap: 256, shape, progs, own_arenas: false, leave, odd }, *bound));
               count += 1;
             }
           }
@@ -220,7 +235,7 @@ pub fn calib() -> i32 {
       if progs.len() == 3 && bound > 4 {
         continue;
       }
-      let h = Harness { fl: Fl::Optimistic, unify: true, min_seg: 8, cap: 256, shape: 3, progs: progs.clone(), own_arenas: false };
+      let h = Harness { fl: Fl::Optimistic, unify: true, min_seg: 8, cap: 256, shape: 3, progs: progs.clone(), own_arenas: false, leave: 0, odd: 0 };
       let t0 = std::time::Instant::now();
       let xc = ExploreCfg { bound, hb: false, drain: true, prop_of: prop_c02, max_execs: 50_000_000 };
       let st = explore(&run, &h, &xc, "calib");
@@ -231,4 +246,47 @@ pub fn calib() -> i32 {
     }
   }
   0
+}
+
+fn prop_c03(class: &str) -> Option<&'static str> {
+  match class {
+    "capacity-or-alignment" => Some("C03"),
+    _ => None,
+  }
+}
+
+/// C03 under concurrency: allocations from fresh space racing on the cursor (CAS retries) and
+/// from recycled segments, checked for the requested capacity and alignment.
+pub fn c03_concurrent(run: &Run, thorough: bool) {
+  use TOp::*;
+  let menu: Vec<Vec<TOp>> = vec![vec![B(5)], vec![U64], vec![AB(3)], vec![AB(8), B(1)], vec![B(3), U64], vec![U64, AB(1)], vec![B(16), DropOwn, AB(2)]];
+  let mut items = vec![];
+  for fl in [Fl::Optimistic, Fl::None] {
+    for (leave, odd, shape) in [(64u32, 3u8, 0u8), (64, 0, 0), (40, 5, 3), (0, 1, 3)] {
+      if fl == Fl::None && leave == 0 {
+        continue;
+      }
+      for i in 0..menu.len() {
+        for j in i..menu.len() {
+          items.push((Harness { fl, unify: true, min_seg: 8, cap: 320, shape, progs: vec![menu[i].clone(), menu[j].clone()], own_arenas: false, leave, odd }, if thorough { 4 } else { 3 }));
+          if thorough && leave == 64 {
+            for k in j..menu.len().min(4) {
+              items.push((Harness { fl, unify: true, min_seg: 8, cap: 320, shape, progs: vec![menu[i].clone(), menu[j].clone(), menu[k].clone()], own_arenas: false, leave, odd }, 2));
+            }
+          }
+        }
+      }
+    }
+  }
+  let execs = AtomicU64::new(0);
+  let events = AtomicU64::new(0);
+  par_for_each(&items, |_, (h, bound)| {
+    let xc = ExploreCfg { bound: *bound, hb: false, drain: false, prop_of: prop_c03, max_execs: 5_000_000 };
+    let st = explore(run, h, &xc, "C03");
+    execs.fetch_add(st.execs, Ordering::Relaxed);
+    events.fetch_add(st.events, Ordering::Relaxed);
+  });
+  run.eval(execs.load(Ordering::Relaxed));
+  run.trans(events.load(Ordering::Relaxed));
+  run.set("concurrent_part", json!({"harnesses": items.len(), "schedules": execs.load(Ordering::Relaxed), "preemption_bound": if thorough { 4 } else { 3 }, "menu": menu.iter().map(|p| progs_str(&[p.clone()])).collect::<Vec<_>>(), "note": "threads allocate from fresh space at odd cursor residues (CAS retry paths) and from recycled segments; every returned handle is checked for the requested capacity and alignment"}));
 }
